@@ -271,6 +271,7 @@ def kapi_check(pid, profile, monitor_name, rule, nq=400, nt=12000, nops=45):
 RULE = 'model-guided random call sequences over 2 tokens and up to ~8 sessions (%s profile of tools/genapi.py); a trace is non-trivial when at least 3 calls after the prelude succeed; distinct = distinct (op, rv) sequences'
 CHECKS = {'C03': check_C03,
           'C01': kapi_check('C01', 'objects', 'monitor_c01', RULE % 'objects'),
+          'C04': kapi_check('C04', 'pins', 'monitor_c03', RULE % 'pins'),
           'C11': kapi_check('C11', 'handles', 'monitor_c11', RULE % 'handles'),
           'C19': kapi_check('C19', 'find', 'monitor_c19', RULE % 'find')}
 
